@@ -143,6 +143,36 @@ func c07DecodedTwice(text string) Case {
 	return Case{Kind: "decoded-twice", Desc: map[string]any{"text": text}, Fail: fail, Nontrivial: true, Key: "dt:" + text}
 }
 
+// the same mapping / list OBJECT stored at two positions of the left document (nothing clones on
+// insert): each position is flattened into its own Adds
+func c07SharedObject() Case {
+	tmpl := dom.Builder().Container()
+	tmpl.AddValue("image", dom.LeafNode("nginx"))
+	tmpl.AddValue("ports", dom.ListNode(dom.LeafNode(80), dom.LeafNode(443)))
+	L := dom.Builder().Container()
+	L.AddValue("apps", dom.ListNode(tmpl, tmpl))
+	grp := dom.Builder().Container()
+	grp.AddValue("first", tmpl)
+	grp.AddValue("second", tmpl)
+	L.AddValue("grp", grp)
+	R := dom.Builder().Container()
+	R.AddValue("apps", dom.ListNode(dom.LeafNode(1)))
+	var fail []string
+	pn := guard(func() {
+		want := *diff.Diff(L.Clone().(dom.Container), R) // a deep copy has no shared objects
+		for i := 0; i < 6; i++ {
+			if got := *diff.Diff(L, R); !reflect.DeepEqual(got, want) {
+				fail = append(fail, fmt.Sprintf("Diff of a document holding one object at several positions: %d modifications, its deep copy gives %d", len(got), len(want)))
+				break
+			}
+		}
+	})
+	if pn != "" {
+		fail = append(fail, "panic: "+pn)
+	}
+	return Case{Kind: "shared-object", Desc: "one mapping object at four positions of the left document", Fail: fail, Nontrivial: true, Key: "shared-object"}
+}
+
 func c07Overlay(r *rand.Rand, o genOpts) Case {
 	names := []string{"base", "site", "host"}
 	mk := func() (dom.OverlayDocument, map[string]any) {
@@ -164,12 +194,16 @@ func c07Overlay(r *rand.Rand, o genOpts) Case {
 	lo, lp := mk()
 	ro, rp := mk()
 	// make the right side related to the left one
-	for n, d := range lp {
-		if r.Intn(2) == 0 {
+	for _, n := range sortedKeys(lp) {
+		d := lp[n]
+		switch r.Intn(3) {
+		case 0:
 			nd := deriveDoc(r, d.(map[string]any), o)
 			if len(nd) > 0 {
 				rp[n] = nd
 			}
+		case 1: // a layer both sides have, with equal content: its entry is the empty sequence, not a missing one
+			rp[n] = deepCopy(d)
 		}
 	}
 	ro = dom.NewOverlayDocument()
@@ -190,6 +224,11 @@ func c07Overlay(r *rand.Rand, o genOpts) Case {
 	}
 	if len(res) != len(all) {
 		fail = append(fail, "OverlayDocs does not have exactly the layer names of either side")
+	}
+	for n := range all {
+		if res[n] == nil {
+			fail = append(fail, "OverlayDocs has no entry for layer "+n)
+		}
 	}
 	ns := sortedKeys(all)
 	if len(ns) == 0 {
@@ -241,6 +280,7 @@ func init() {
 				c07DecodedTwice("t: 2001-12-14T21:59:43.10+05:30\nl: [2002-01-01T00:00:00-03:30, x]\nu: 2001-12-14T21:59:43Z\nd: 2002-12-14\n"),
 				c07DecodedTwice("codes: {200: OK, 404: NF}\nflags: {true: on}\nrecs:\n- {1: a}\n- plain\n"),
 				c07DecodedTwice("a: {b: [1, {c: ~}], e: {}}\nf: 1.5\ng: 0x10\nh: '1'\n"),
+				c07SharedObject(),
 			}
 		},
 		Gen: func(r *rand.Rand, tier string, idx int) Case {
